@@ -1,11 +1,15 @@
 (* C01 — per-channel delivery is in order, at most once and byte-exact. Statements only.
-   This file pins the component theorems the end-to-end argument consists of (sender ids/payloads, frame
-   dedupe, one packet per slot generation, exact reassembly, exact codec). Their composition into the
+   Receiver side over whole histories (ReceiverOrder.v): for ANY sequence of datagrams (arbitrary contents),
+   receive() calls and resynchronisation requests, every packet PacketReceiver hands to the application can be
+   tagged with (channel, absolute packet id) such that the ids on each channel are strictly increasing — nothing
+   is delivered twice or out of order on a channel, across any number of wrap-arounds of the 20-bit ids and of the
+   slot arrays (C01_receiver_delivery_log). The other component theorems (sender ids/payloads, frame dedupe, one
+   packet per slot generation, exact reassembly, exact codec) are pinned below. Their composition into the
    network-level subsequence theorem (which needs the window-agreement lemma under bounded staleness of the
    20-bit ids) is NOT proved; the end-to-end statement is decided on the implementation by the
    correspondence streams plus the subsequence oracle (partial, see DESIGN.md). *)
 From UF Require Import Consts Base Frame Codec Sender Receiver FrameAck HalfConn
-                       CodecRoundtrip FragmentProofs HcLemmas.
+                       CodecRoundtrip FragmentProofs HcLemmas ReceiverProofs ReceiverOrder.
 
 (* S1: consecutive ids in submission order; the window entry carries the submitted bytes and channel *)
 Theorem C01_sender_ids_and_payload :
@@ -53,3 +57,39 @@ Proof. exact asm_single_fragment_exact. Qed.
 Print Assumptions C01_single_fragment_exact.
 
 Check C01_frame_accepted_once.
+
+(* ---------- receiver side, whole histories (ReceiverOrder.v) ---------- *)
+Local Open Scope N_scope.
+
+(* every packet handed out carries a (channel, absolute id) tag; on each channel the ids strictly increase *)
+Theorem C01_receiver_delivery_log :
+  forall w b m ops, 0 < w -> 2 * w <= pow20 -> pow20 mod w = 0 -> b < pow20 ->
+  exists L : list logent,
+    handed_out ops (receiver_new w b m) = log_data L /\ chan_sorted (log_ids L).
+Proof. exact receiver_delivery_log. Qed.
+Print Assumptions C01_receiver_delivery_log.
+
+(* the ghost run that produces the tags is the model's own run *)
+Theorem C01_receiver_delivery_order :
+  forall w b m ops, 0 < w -> 2 * w <= pow20 -> pow20 mod w = 0 -> b < pow20 ->
+  let g := fold_left gstep ops (g_init w b m) in
+  chan_sorted (g_D g) /\ g_r g = fold_left receiver_step ops (receiver_new w b m).
+Proof. exact receiver_delivery_order. Qed.
+
+(* the window sizes the endpoints use satisfy the hypotheses *)
+Example C01_window_sizes_ok :
+  forallb (fun w => (0 <? w) && (2 * w <=? pow20) && (pow20 mod w =? 0)) [2; 4; 8; 16; 64; 4096; MAX_PACKET_WINDOW_SIZE] = true.
+Proof. vm_compute. reflexivity. Qed.
+
+(* non-vacuity: a run across the wrap-around of the 20-bit ids that hands out packets in id order, drops a
+   late duplicate and a packet behind the channel base *)
+Definition ex_dg (seq chan : N) (d : list N) : datagram := mkDg seq chan 0 0 0 0 d.
+Definition ex_ops : list receiver_op :=
+  [RDatagram (ex_dg 0 0 [3]); RDatagram (ex_dg (pow20 - 1) 0 [1; 2]); RReceive;
+   RDatagram (ex_dg (pow20 - 1) 0 [9]); RDatagram (ex_dg 1 1 [4]); RDatagram (ex_dg 0 0 [8]); RReceive].
+Example C01_receiver_run :
+  handed_out ex_ops (receiver_new 4 (pow20 - 1) 100000) = [[1; 2]; [3]; [4]] /\
+  log_ids (run_log ex_ops (g_init 4 (pow20 - 1) 100000) []) = [(0, pow20 - 1); (0, pow20); (1, pow20 + 1)].
+Proof. vm_compute. split; reflexivity. Qed.
+
+Check C01_receiver_delivery_log.
